@@ -418,10 +418,13 @@ class Segment(object):
         while len(self.elements) <= ele_idx:
             # insert blank values before our value if needed
             self.elements.append(Composite('', self.subele_term))
-        if self.seg_id == 'ISA' and ele_idx == 15:
+        if self.seg_id == 'ISA':
             #Special handling for ISA segment
-            #guarantee subele_term will not be matched
-            self.elements[ele_idx] = Composite(val, self.ele_term)
+            #ISA elements are never composites: keep the value whole, even if it
+            #is one of this segment's own delimiter characters
+            comp = Composite('', self.ele_term)
+            comp.elements = [Element(val)]
+            self.elements[ele_idx] = comp
             return
         if comp_idx is None:
             self.elements[ele_idx] = Composite(val, self.subele_term)
